@@ -98,6 +98,48 @@ theorem merge_hom_perm (p k : Nat) (A B U : List Nat) (h : U.Perm (A ++ B)) :
 example : (sketch 5 31 [7, 40]).merge (sketch 5 31 [9]) = .ok (sketch 5 31 [9, 40, 7]) :=
   merge_hom_perm 5 31 _ _ _ (by decide)
 
+/-! ## T-history
+Every way content enters a sketch — `add_hash`/`add_many`/`add_word`/`add_sequence` (`Step.add`),
+`Update<HyperLogLog> for KmerMinHash` / `hll_update_mh` (`Step.update`, with the MinHash's mins),
+`merge` / `hll_merge` (`Step.merge`) — interleaved in any order, on empty and non-empty receivers. -/
+
+/-- T-history (update): pushing a MinHash into a sketch is `add_hash` of each of its mins, on
+    whatever the receiver already holds. -/
+theorem update_is_add (s : H) (mins : List Nat) : s.update mins = s.addMany mins :=
+  update_eq_addMany s mins
+
+/-- T-history: a sketch that has received `A` and then goes through any history equals the sketch
+    of the multiset union of `A` and everything the steps brought; no step is refused. -/
+theorem history_union (p k : Nat) (A : List Nat) (steps : List Step) :
+    runHistory p k (sketch p k A) steps = .ok (sketch p k (A ++ steps.flatMap Step.content)) :=
+  runHistory_sketch p k A steps
+example : runHistory 4 21 (sketch 4 21 [7]) [.update [40, 9], .add [3], .merge [9, 88]]
+    = .ok (sketch 4 21 [7, 40, 9, 3, 9, 88]) := history_union 4 21 [7] _
+
+/-- T-history (registers): after any history on a fresh sketch, register `i` is the max of ρ over
+    the hashes of bucket `i` among everything that was fed in. -/
+theorem history_registers (p k : Nat) (steps : List Step) (i : Nat) (hp : p ≤ 64) (hi : i < 2 ^ p)
+    (h64 : ∀ h ∈ steps.flatMap Step.content, h < 2 ^ 64) :
+    ∃ s, runHistory p k (H.empty p k) steps = .ok s ∧
+      (s.regs[i]!).toNat = HllSpec.reg p (steps.flatMap Step.content) i :=
+  ⟨_, by simpa [sketch] using history_union p k [] steps, register_spec p k _ i hp hi h64⟩
+example : ∃ s, runHistory 4 21 (H.empty 4 21) [.add [16], .update [0, 35]] = .ok s ∧
+    (s.regs[0]!).toNat = HllSpec.reg 4 ([Step.add [16], .update [0, 35]].flatMap Step.content) 0 :=
+  history_registers 4 21 _ 0 (by decide) (by decide) (by decide)
+
+/-- T-history (spec column of the driver, continued fold): the array a slot carries after more
+    hashes arrive is the specification's array of the union. -/
+theorem spec_accum (p : Nat) (A B : List Nat) :
+    HllSpec.accum p (HllSpec.regs p A) B = HllSpec.regs p (A ++ B) := spec_accum_regs p A B
+
+/-- T-history (spec column of the driver, merge): the register-wise max of two specification arrays
+    holds, in every cell, the specification's register of the union. -/
+theorem spec_merge (p : Nat) (A B : List Nat) (i : Nat) (hi : i < 2 ^ p) :
+    (HllSpec.mergeRegs (HllSpec.regs p A) (HllSpec.regs p B))[i]! = HllSpec.reg p (A ++ B) i :=
+  spec_merge_get p A B i hi
+example : (HllSpec.mergeRegs (HllSpec.regs 4 [16]) (HllSpec.regs 4 [0]))[0]! = HllSpec.reg 4 ([16] ++ [0]) 0 :=
+  spec_merge 4 [16] [0] 0 (by decide)
+
 /-! ## T-merge_aci -/
 
 /-- merge is the register-wise maximum (and keeps p, q, k of the receiver). -/
